@@ -12,7 +12,8 @@ GENS = [dict(max_n=5), dict(max_n=5, beam=True), dict(max_n=4, multi=True, nbest
 
 
 def extra(ctx):
-    pass
+    import glue_checks
+    glue_checks.single_suite(ctx, {'valid'}, [dict(max_n=5), dict(max_n=4, multi=True, nbest_max=3), dict(max_n=4, beam=True)], ctx.budget(600, 6000))
 
 
 def run(ctx):
